@@ -27,10 +27,24 @@ import (
 // BackendServer + Hub, every batch in a child process ----------------------------
 
 const (
-	c11Sid  = "@SID@" // placeholder for the public session id of the fixture client
+	c11Sid  = "@SID@" // placeholder for the public session id of the fixture client (the observer)
 	c11User = "c11-user"
 	c11Rs   = "c11-rs"
+	// the session ELSEWHERE: always in a room that is neither the addressed one nor the observer's
+	c11Sid2  = "@SID2@"
+	c11User2 = "c11-user2"
+	c11Rs2   = "c11-rs2"
+	// the session in NO room (it also is the one that joins and leaves the addressed room as a probe)
+	c11Sid3  = "@SID3@"
+	c11User3 = "c11-user3"
+	c11Rs3   = "c11-rs3-probe" // only registered while the probe is inside the room
+	// a client that connects, says hello and good-bye after every request
+	c11User4 = "c11-user4"
+	c11Room2 = "99000000" // the room of the session elsewhere
 )
+
+// public session ids of the second and third fixture session in this (child) process
+var c11Sid2Val, c11Sid3Val string
 
 // ---- JSON trees (mirror of lib/Json.v) ------------------------------------------
 
@@ -82,7 +96,16 @@ func (j *vj) clone() *vj {
 }
 
 func c11JsonString(s, sid string) string {
-	b, _ := json.Marshal(strings.ReplaceAll(s, c11Sid, sid))
+	if strings.Contains(s, "@SID") {
+		s = strings.ReplaceAll(s, c11Sid, sid)
+		if c11Sid2Val != "" {
+			s = strings.ReplaceAll(s, c11Sid2, c11Sid2Val)
+		}
+		if c11Sid3Val != "" {
+			s = strings.ReplaceAll(s, c11Sid3, c11Sid3Val)
+		}
+	}
+	b, _ := json.Marshal(s)
 	return string(b)
 }
 
@@ -306,6 +329,8 @@ type c11Op struct {
 	Responsive bool     `json:"responsive"`
 	Closed     bool     `json:"closed,omitempty"`
 	Events     []string `json:"events,omitempty"`
+	Events2    []string `json:"events2,omitempty"` // received by the session elsewhere
+	Blocked    string   `json:"blocked,omitempty"` // which liveness probe was not answered within the bound
 	Done       bool     `json:"done,omitempty"`
 }
 
@@ -341,7 +366,7 @@ func (c *c11Case) coq() string {
 		if !o.Done {
 			break
 		}
-		tr = append(tr, fmt.Sprintf("(%s, mkobs %d %s %s %s %s)", o.coqBody(), o.Status, coqBool(o.Died), coqBool(o.Responsive), coqBool(o.Closed), coqList(o.Events)))
+		tr = append(tr, fmt.Sprintf("(%s, mkobs2 %d %s %s %s %s %s)", o.coqBody(), o.Status, coqBool(o.Died), coqBool(o.Responsive), coqBool(o.Closed), coqList(o.Events), coqList(o.Events2)))
 	}
 	return fmt.Sprintf("mkcase %d %s %s %s %s", c.Id, coqBool(c.Fixed), coqBool(c.Exists), coqBool(c.Numeric), coqList(tr))
 }
@@ -706,7 +731,94 @@ func (g *c11Gen) enumerate() int {
 		c11Req("incall", kv("incall", jo(kv("changed", ja(c11U(kv("sessionId", js(c11Rs)), kv("inCall", jb(false)))))))),
 		c11Req("incall", kv("incall", jo(kv("all", jb(true)), kv("incall", ji(2))))))
 	g.nobody()
+	g.elsewhere()
 	return len(g.cases) - n0
+}
+
+// Requests whose entries name sessions ELSEWHERE: the session of another room (its room session id
+// resolves), the session in no room (only a public id, which is no room session id), next to / instead
+// of the observer (in the addressed room when it exists) - in every combination, in "users", in
+// "changed", in both, with every kind of call state; then the other request types that name sessions
+// or users (disinvite, switchto, invite, update, delete).  What the session elsewhere receives is
+// observed like the observer's events; after every request the liveness probes run.
+func (g *c11Gen) elsewhere() {
+	ent := func(id string, extra ...vjm) *vj { return c11U(append([]vjm{kv("sessionId", js(id))}, extra...)...) }
+	type who struct {
+		name string
+		ids  []string
+	}
+	combos := []who{
+		{"T", []string{c11Rs}}, {"O", []string{c11Rs2}}, {"N", []string{c11Sid3}}, {"Opub", []string{c11Sid2}},
+		{"TO", []string{c11Rs, c11Rs2}}, {"OT", []string{c11Rs2, c11Rs}}, {"ON", []string{c11Rs2, c11Sid3}},
+		{"TON", []string{c11Rs, c11Rs2, c11Sid3}}, {"OO", []string{c11Rs2, c11Rs2}},
+	}
+	states := []c11Shape{{"7", ji(7)}, {"1", ji(1)}, {"0", ji(0)}, {"true", jb(true)}, {"false", jb(false)}, {"absent", nil}, {"str", js("1")}}
+	list := func(w who, st *vj, extra ...vjm) *vj {
+		var l []*vj
+		for _, id := range w.ids {
+			kvs := append([]vjm{}, extra...)
+			if st != nil {
+				kvs = append(kvs, kv("inCall", st))
+			}
+			l = append(l, ent(id, kvs...))
+		}
+		return ja(l...)
+	}
+	for _, w := range combos {
+		for _, st := range states {
+			for _, where := range []string{"users", "changed", "both"} {
+				var ms []vjm
+				if where != "users" {
+					ms = append(ms, kv("changed", list(w, st.v)))
+				}
+				if where != "changed" {
+					ms = append(ms, kv("users", list(w, st.v)))
+				}
+				doc := c11Req("incall", kv("incall", jo(append([]vjm{kv("incall", ji(7))}, ms...)...)))
+				class := "d5/elsewhere/incall/" + where + "/" + w.name + "/" + st.name
+				g.add(class, true, true, doc)
+				if where == "both" && (st.name == "7" || st.name == "0") {
+					g.add(class, false, true, doc)
+				}
+				if st.name == "7" || st.name == "absent" {
+					pdoc := c11Req("participants", kv("participants", jo(ms...)))
+					g.add("d5/elsewhere/participants/"+where+"/"+w.name+"/"+st.name, true, true, pdoc)
+				}
+			}
+		}
+		// permissions of a session elsewhere, changed through this room
+		g.both("d5/elsewhere/participants/perm/"+w.name, c11Req("participants", kv("participants",
+			jo(kv("changed", list(w, nil, kv("permissions", ja(js("publish-media"), js("control"))))), kv("users", list(w, ji(1)))))))
+	}
+	// the call state of the room in sequences: a session elsewhere never is in this room's call
+	all := func(fl int64) *vj { return c11Req("incall", kv("incall", jo(kv("all", jb(true)), kv("incall", ji(fl))))) }
+	chg := func(es ...*vj) *vj { return c11Req("incall", kv("incall", jo(kv("incall", ji(7)), kv("changed", ja(es...)), kv("users", ja(es...))))) }
+	in := func(id string, fl int64) *vj { return ent(id, kv("inCall", ji(fl))) }
+	g.add("d5/elsewhere/seq/other-joins-all-leave", true, true, chg(in(c11Rs2, 7)), all(0), all(1), all(0))
+	g.add("d5/elsewhere/seq/all-join-other-leaves", true, true, all(1), chg(in(c11Rs2, 0)), all(1), all(0))
+	g.add("d5/elsewhere/seq/both-join-other-leaves", true, true, chg(in(c11Rs, 7), in(c11Rs2, 7)), chg(in(c11Rs2, 0)), all(0), all(0))
+	g.add("d5/elsewhere/seq/member-leaves-other-joins", true, true, all(1), chg(in(c11Rs, 0), in(c11Rs2, 7)), all(0), all(1))
+	g.add("d5/elsewhere/seq/other-joins-member-joins", true, true, chg(in(c11Rs2, 1)), chg(in(c11Rs, 1)), all(1), all(0), all(0))
+	g.add("d5/elsewhere/seq/nobody-joins", true, true, chg(in(c11Sid3, 7), in(c11Sid2, 7)), all(0))
+	g.add("d5/elsewhere/seq/absent", false, true, chg(in(c11Rs2, 7)), chg(in(c11Rs, 7), in(c11Rs2, 7)), all(0))
+	// other request types that name sessions / users elsewhere
+	g.both("d5/elsewhere/disinvite/sessions-O", c11Req("disinvite", kv("disinvite", jo(kv("sessionids", ja(js(c11Rs2)))))))
+	g.both("d5/elsewhere/disinvite/sessions-O-pub", c11Req("disinvite", kv("disinvite", jo(kv("sessionids", ja(js(c11Sid2), js(c11Sid3)))))))
+	g.both("d5/elsewhere/disinvite/sessions-OT", c11Req("disinvite", kv("disinvite", jo(kv("sessionids", ja(js(c11Rs2), js(c11Rs)))))))
+	g.both("d5/elsewhere/disinvite/users-O", c11Req("disinvite", kv("disinvite", jo(kv("userids", ja(js(c11User2), js(c11User3))), kv("alluserids", ja(js(c11User), js(c11User2)))))))
+	g.both("d5/elsewhere/invite/users-O", c11Req("invite", kv("invite", jo(kv("userids", ja(js(c11User2))), kv("alluserids", ja(js(c11User), js(c11User2), js(c11User3)))))))
+	g.both("d5/elsewhere/invite/users-TO", c11Req("invite", kv("invite", jo(kv("userids", ja(js(c11User), js(c11User2), js(c11User2)))))))
+	g.both("d5/elsewhere/update/users-O", c11Req("update", kv("update", jo(kv("userids", ja(js(c11User2), js(c11User))), kv("properties", jo(kv("name", js("n"))))))))
+	g.both("d5/elsewhere/delete/users-O", c11Req("delete", kv("delete", jo(kv("userids", ja(js(c11User2)))))))
+	g.both("d5/elsewhere/message", c11Req("message", kv("message", c11Default("message"))))
+	for _, sh := range []c11Shape{
+		{"list-O", ja(js(c11Rs2))}, {"list-TO", ja(js(c11Rs), js(c11Rs2))}, {"list-pub", ja(js(c11Sid2), js(c11Sid3))},
+		{"map-O", jo(kv(c11Rs2, jo(kv("k", js("v")))))}, {"map-TO", jo(kv(c11Rs, ji(1)), kv(c11Rs2, ji(2)))}, {"map-pub", jo(kv(c11Sid2, ji(1)))},
+	} {
+		g.both("d5/elsewhere/switchto/"+sh.name, c11Req("switchto", kv("switchto", jo(kv("roomid", js("t")), kv("sessions", sh.v)))))
+	}
+	g.both("d5/elsewhere/switchto/internal-list", c11Req("switchto", kv("switchto", jo(kv("roomid", js("t")), kv("sessionslist", ja(js(c11Sid2), js(c11Sid3)))))))
+	g.both("d5/elsewhere/switchto/internal-map", c11Req("switchto", kv("switchto", jo(kv("roomid", js("t")), kv("sessionsmap", jo(kv(c11Sid2, jz()), kv(c11Sid3, ji(1))))))))
 }
 
 // user entries that reference no session: what fixupUserSessions drops (no
@@ -819,7 +931,7 @@ func c11RandomValue(r *vrng, depth int) *vj {
 	case n == 3:
 		return jf(int64(r.intn(40))-5, int64(r.intn(5))-2)
 	case n == 4:
-		return js(pick(r, []string{"", "x", c11Rs, c11User, c11Sid, "0", "nobody", "invite", "+49123"}))
+		return js(pick(r, []string{"", "x", c11Rs, c11User, c11Sid, "0", "nobody", "invite", "+49123", c11Rs2, c11User2, c11Sid2, c11Sid3}))
 	case n == 5 && depth > 0:
 		var l []*vj
 		for i := r.intn(3); i > 0; i-- {
@@ -837,7 +949,7 @@ func c11RandomValue(r *vrng, depth int) *vj {
 	case n == 8:
 		return ja(js(c11User))
 	case n == 9:
-		return ja(c11U(kv("sessionId", js(c11Rs)), kv("inCall", ji(int64(r.intn(3))))))
+		return ja(c11U(kv("sessionId", js(pick(r, []string{c11Rs, c11Rs, c11Rs2}))), kv("inCall", ji(int64(r.intn(3))))))
 	case n == 10:
 		return jo(kv(c11Rs, jo()))
 	}
@@ -899,6 +1011,8 @@ func (g *c11Gen) random(r *vrng) {
 				for k := r.intn(4); k > 0; k-- {
 					if r.chance(15) {
 						l = append(l, c11U(kv("sessionId", js(c11Rs)), kv("inCall", ji(int64(r.intn(3))))))
+					} else if r.chance(12) {
+						l = append(l, c11U(kv("sessionId", js(c11Rs2)), kv("inCall", ji(int64(r.intn(3))))))
 					} else {
 						l = append(l, pool[r.intn(len(pool))].v)
 					}
@@ -976,6 +1090,8 @@ type c11LogLine struct {
 	Responsive bool     `json:"responsive,omitempty"`
 	Closed     bool     `json:"closed,omitempty"`
 	Events     []string `json:"events,omitempty"`
+	Events2    []string `json:"events2,omitempty"`
+	Blocked    string   `json:"blocked,omitempty"`
 	Sid        string   `json:"sid,omitempty"`
 }
 
@@ -989,6 +1105,267 @@ type c11Fixture struct {
 	joinN    int
 	srv      *httptest.Server
 	hub      *Hub
+	// the session elsewhere, the session in no room (and probe), see the constants
+	client2, client3 *TestClient
+	sid2, sid3       string
+	probeN           int
+	blocked          string // set by settle when the hub's main loop / a room's lock stands
+}
+
+// ---- liveness ("leaves the server running and responsive") -------------------------------------------
+// Every wait of the harness on the server is bounded by c11LiveBound; a miss is the direct observation
+// "blocked" (responsive = false with a note saying which probe was not answered): the process lives,
+// but a lock is held for ever or the hub's main loop stands.  The hub of this child is then useless:
+// the child reports the step and ends, the parent continues the list in a new child.
+const c11LiveBound = 10 * time.Second
+
+func c11Within(bound time.Duration, fn func()) bool {
+	done := make(chan struct{})
+	go func() {
+		defer close(done)
+		fn()
+	}()
+	select {
+	case <-done:
+		return true
+	case <-time.After(bound):
+		return false
+	}
+}
+
+// observerRoom reads from the hub (not guessed from a missing answer) whether the observer's session
+// still is in a room; ok = false: the hub's tables could not be read within the bound.
+func (f *c11Fixture) observerRoom() (room *Room, ok bool) {
+	ok = c11Within(c11LiveBound, func() {
+		if s := f.hub.GetSessionByPublicId(f.sid); s != nil {
+			room = s.GetRoom()
+		}
+	})
+	return
+}
+
+// locksStand: some Room object's lock cannot be taken at any of 100 attempts spread over half a second
+// (the server holds these locks for microseconds): somebody holds it for good, there is no point in
+// waiting for the rest of the bound.
+func (f *c11Fixture) locksStand() bool {
+	stand := false
+	c11Within(2*time.Second, func() {
+		var rooms []*Room
+		f.hub.ru.RLock()
+		for _, r := range f.hub.rooms {
+			rooms = append(rooms, r)
+		}
+		f.hub.ru.RUnlock()
+		for _, r := range rooms {
+			free := false
+			for i := 0; i < 100 && !free; i++ {
+				if r.mu.TryLock() {
+					r.mu.Unlock()
+					free = true
+				} else {
+					time.Sleep(5 * time.Millisecond)
+				}
+			}
+			if !free {
+				stand = true
+				return
+			}
+		}
+	})
+	return stand
+}
+
+// await reads what client c receives until pred says stop; false = bound reached or connection closed
+func c11Await(c *TestClient, bound time.Duration, pred func(m *ServerMessage) bool) bool {
+	ctx, cancel := context.WithTimeout(context.Background(), bound)
+	defer cancel()
+	for {
+		m, err := c.RunUntilMessage(ctx)
+		if err != nil {
+			return false
+		}
+		if m != nil && pred(m) {
+			return true
+		}
+	}
+}
+
+// settle2: the probes that delimit what the session elsewhere received, which at the same time are the
+// "further room request": a participants request for ITS room (Room object -> hub main loop -> event to
+// the room) and an invite for its user.  note != "": not answered within the bound.
+func (f *c11Fixture) settle2() (events []string, note string) {
+	f.sentinel++
+	n := f.sentinel
+	if st := f.post(c11Room2, []byte(fmt.Sprintf(`{"type":"participants","participants":{"users":[{"sessionId":%q,"c11sentinel":%d}]}}`, c11Rs2, n))); st != 200 {
+		return nil, fmt.Sprintf("a participants request for another room was answered %d", st)
+	}
+	if st := f.post(c11Room2, []byte(fmt.Sprintf(`{"type":"invite","invite":{"userids":[%q],"properties":{"c11sentinel":%d}}}`, c11User2, n))); st != 200 {
+		return nil, fmt.Sprintf("an invite request for another room was answered %d", st)
+	}
+	gotI, gotP := false, false
+	start := time.Now()
+	checked := false
+	for !(gotI && gotP) {
+		wait := time.Until(start.Add(c11LiveBound))
+		if !checked {
+			wait = time.Until(start.Add(time.Second))
+		}
+		if wait <= 0 {
+			if !checked {
+				checked = true
+				if f.locksStand() {
+					return events, "a further room request (participants, for the room of the session elsewhere) was answered 200 but not processed (1.5 s; the lock of a Room object was held all the time)"
+				}
+				continue
+			}
+			return events, fmt.Sprintf("a further room request for the room of the session elsewhere was answered 200 but its event did not arrive within the bound (invite %v, participants %v)", gotI, gotP)
+		}
+		ctx, cancel := context.WithTimeout(context.Background(), wait)
+		m, err := f.client2.RunUntilMessage(ctx)
+		timedOut := err != nil && ctx.Err() != nil
+		cancel()
+		if timedOut {
+			continue
+		}
+		if err != nil {
+			return append(events, "(KOther 7)"), "the connection of the session elsewhere was closed"
+		}
+		kind, s, which := c11Kind(m)
+		switch {
+		case which == "join":
+		case s == n && which == "I":
+			gotI = true
+		case s == n && which == "P":
+			gotP = true
+		case s != 0:
+		default:
+			events = append(events, kind)
+		}
+	}
+	return events, ""
+}
+
+// probeLive: (3) a session can join the addressed room and leave it again, (4) a new client can connect,
+// say hello and good-bye, (5) the tables of the hub and of every room can be read.
+func (f *c11Fixture) probeLive(target string) string {
+	f.probeN++
+	id := fmt.Sprintf("c11probe%d", f.probeN)
+	if err := f.client3.WriteJSON(&ClientMessage{Id: id, Type: "room", Room: &RoomClientMessage{RoomId: target, SessionId: c11Rs3}}); err != nil {
+		return "the session in no room could not send: " + err.Error()
+	}
+	joined := false
+	if !c11Await(f.client3, c11LiveBound, func(m *ServerMessage) bool {
+		if m.Id != id {
+			return false
+		}
+		joined = m.Type == "room" && m.Room != nil && m.Room.RoomId == target
+		return true
+	}) {
+		return "a session could not join the addressed room within the bound"
+	}
+	if joined {
+		if err := f.client3.WriteJSON(&ClientMessage{Id: id + "l", Type: "room", Room: &RoomClientMessage{RoomId: ""}}); err != nil {
+			return "the session in no room could not send: " + err.Error()
+		}
+		if !c11Await(f.client3, c11LiveBound, func(m *ServerMessage) bool { return m.Id == id+"l" }) {
+			return "a session could not leave the addressed room within the bound"
+		}
+	}
+	// a new client
+	note := ""
+	if !c11Within(3*c11LiveBound, func() {
+		ctx, cancel := context.WithTimeout(context.Background(), c11LiveBound)
+		defer cancel()
+		c := NewTestClientContext(ctx, f.t, f.srv, f.hub)
+		defer c.conn.Close()
+		if !c11Await(c, c11LiveBound, func(m *ServerMessage) bool { return m.Type == "welcome" }) {
+			note = "a new connection did not get the welcome message within the bound"
+			return
+		}
+		if err := c.SendHello(c11User4); err != nil {
+			note = "a new client could not send hello: " + err.Error()
+			return
+		}
+		if !c11Await(c, c11LiveBound, func(m *ServerMessage) bool { return m.Type == "hello" }) {
+			note = "a new client did not get the answer to hello within the bound"
+			return
+		}
+		if err := c.SendBye(); err != nil {
+			note = "a new client could not send bye: " + err.Error()
+			return
+		}
+		if !c11Await(c, c11LiveBound, func(m *ServerMessage) bool { return m.Type == "bye" }) {
+			note = "a new client did not get the answer to bye within the bound"
+		}
+	}) {
+		return "a new client was not served within the bound"
+	}
+	if note != "" {
+		return note
+	}
+	// the tables
+	if !c11Within(c11LiveBound, func() {
+		f.hub.mu.RLock()
+		_ = len(f.hub.sessions)
+		f.hub.mu.RUnlock()
+		var rooms []*Room
+		f.hub.ru.RLock()
+		for _, r := range f.hub.rooms {
+			rooms = append(rooms, r)
+		}
+		f.hub.ru.RUnlock()
+		for _, r := range rooms {
+			r.mu.RLock()
+			_ = len(r.sessions) + len(r.inCallSessions)
+			r.mu.RUnlock()
+		}
+	}) {
+		return "the tables of the hub and its rooms could not be read within the bound"
+	}
+	return ""
+}
+
+// connectExtra connects one more fixture session (hello only)
+func (f *c11Fixture) connectExtra(user string) (*TestClient, string, error) {
+	client := NewTestClient(f.t, f.srv, f.hub)
+	if err := client.SendHello(user); err != nil {
+		return nil, "", err
+	}
+	ctx, cancel := context.WithTimeout(context.Background(), 10*time.Second)
+	defer cancel()
+	hello, err := client.RunUntilHello(ctx)
+	if err != nil {
+		return nil, "", err
+	}
+	return client, hello.Hello.SessionId, nil
+}
+
+func (f *c11Fixture) setupOthers() error {
+	var err error
+	if f.client2, f.sid2, err = f.connectExtra(c11User2); err != nil {
+		return err
+	}
+	if f.client3, f.sid3, err = f.connectExtra(c11User3); err != nil {
+		return err
+	}
+	c11Sid2Val, c11Sid3Val = f.sid2, f.sid3
+	if err := f.client2.WriteJSON(&ClientMessage{Id: "c11join2", Type: "room", Room: &RoomClientMessage{RoomId: c11Room2, SessionId: c11Rs2}}); err != nil {
+		return err
+	}
+	ok := false
+	if !c11Await(f.client2, c11LiveBound, func(m *ServerMessage) bool {
+		if m.Id != "c11join2" {
+			return false
+		}
+		ok = m.Type == "room" && m.Room != nil && m.Room.RoomId == c11Room2
+		return true
+	}) || !ok {
+		return fmt.Errorf("the session elsewhere could not join its room")
+	}
+	if _, note := f.settle2(); note != "" {
+		return fmt.Errorf("fixture: %s", note)
+	}
+	return nil
 }
 
 func (f *c11Fixture) post(room string, body []byte) int {
@@ -1064,6 +1441,11 @@ func c11Kind(m *ServerMessage) (kind string, sentinel int, which string) {
 				return "KSwitchTo", 0, ""
 			case "join":
 				return "", 0, "join" // own join after entering the room of the case: not an effect of a request
+			case "leave":
+				// the probe session leaving the addressed room again: not an effect of a request
+				if len(ev.Leave) == 1 && c11Sid3Val != "" && ev.Leave[0] == c11Sid3Val {
+					return "", 0, "join"
+				}
 			}
 			return "(KOther 4)", 0, ""
 		}
@@ -1092,6 +1474,7 @@ func (f *c11Fixture) settle(room string, inRoom *bool) (events []string, respons
 	gotI, gotP := false, false
 	deadline := time.Now().Add(10 * time.Second)
 	var pDeadline time.Time
+	pExtended := false
 	for {
 		var wait time.Duration
 		switch {
@@ -1116,12 +1499,34 @@ func (f *c11Fixture) settle(room string, inRoom *bool) (events []string, respons
 		}
 		if timedOut {
 			if !gotI {
+				f.blocked = "the invite probe for the observer was answered 200 but its event did not arrive within the bound"
 				return events, false, false
 			}
 			if wantP && !gotP {
-				*inRoom = false // the room is gone (deleted): no further probes through it
-				wantP = false
-				continue
+				// Is the observer still in a room?  Read from the hub: when the room is gone (deleted),
+				// there are no further probes through it.  When it is not, the probe has to come: it
+				// waits in the Room object's goroutine or in the hub's main loop.
+				r, ok := f.observerRoom()
+				if !ok {
+					f.blocked = "the hub's session table could not be read within the bound"
+					return events, false, false
+				}
+				if r == nil {
+					*inRoom = false
+					wantP = false
+					continue
+				}
+				if !pExtended {
+					pExtended = true
+					if f.locksStand() {
+						f.blocked = "a further room request (participants, for the room of the observer) was answered 200 but not processed (0.8 s; the lock of a Room object was held all the time)"
+						return events, false, false
+					}
+					pDeadline = time.Now().Add(c11LiveBound)
+					continue
+				}
+				f.blocked = "a further room request (participants, for the room of the observer) was answered 200 but its event did not arrive within the bound although the observer is in the room"
+				return events, false, false
 			}
 			return events, true, false
 		}
@@ -1251,6 +1656,9 @@ func c11Child(t *testing.T, batchFile, logFile string) {
 	if err := f.connect(); err != nil {
 		t.Fatal(err)
 	}
+	if err := f.setupOthers(); err != nil {
+		t.Fatal(err)
+	}
 	emit(c11LogLine{C: -1, Ph: "ready", Sid: f.sid})
 	for ci, c := range cases {
 		target, own := c11RoomId(c)
@@ -1265,9 +1673,29 @@ func c11Child(t *testing.T, batchFile, logFile string) {
 			emit(c11LogLine{C: ci, O: oi, Ph: "start"})
 			st := f.post(target, []byte(c.Ops[oi].bodyText(f.sid)))
 			emit(c11LogLine{C: ci, O: oi, Ph: "reply", Status: st})
+			f.blocked = ""
 			evs, ok, closed := f.settle(own, &inRoom)
 			sort.Strings(evs)
-			emit(c11LogLine{C: ci, O: oi, Ph: "done", Status: st, Responsive: ok, Closed: closed, Events: evs})
+			// the session elsewhere: what it received; then the liveness probes
+			var evs2 []string
+			note := f.blocked
+			if ok {
+				evs2, note = f.settle2()
+				sort.Strings(evs2)
+				if note == "" {
+					note = f.probeLive(target)
+				}
+			} else if note == "" {
+				note = "the probes for the observer were not answered"
+			}
+			emit(c11LogLine{C: ci, O: oi, Ph: "done", Status: st, Responsive: ok && note == "", Closed: closed, Events: evs, Events2: evs2, Blocked: note})
+			if note != "" {
+				// blocked: this hub serves nobody any more; the parent goes on with a new one
+				emit(c11LogLine{C: ci, O: oi, Ph: "blocked", Blocked: note})
+				w.Flush()
+				lf.Close()
+				os.Exit(0)
+			}
 			if closed {
 				break // the client of this case is gone: the rest of the history is not executed
 			}
@@ -1281,18 +1709,17 @@ func c11Child(t *testing.T, batchFile, logFile string) {
 
 // ---- the parent: batches, children, judging ----------------------------------------------------------
 
-func c11RunBatches(t *testing.T, env verifEnv, cases []*c11Case, batchSize int) (children, deaths int) {
-	for start := 0; start < len(cases); {
-		end := start + batchSize
-		if end > len(cases) {
-			end = len(cases)
-		}
-		batch := cases[start:end]
+// c11RunChunk runs one chunk of the case list in child processes, one after the other: a child that
+// died (process exit = observation for the request in flight) or reported "blocked" (the hub serves
+// nobody any more = observation for that request) is replaced by a new one for the rest of the chunk.
+func c11RunChunk(env verifEnv, chunk int, batch []*c11Case) (children, deaths, blocked int, err error) {
+	for start := 0; start < len(batch); {
+		rest := batch[start:]
 		children++
-		base := filepath.Join(env.out, fmt.Sprintf("child_%04d", children))
-		data, _ := json.Marshal(batch)
-		if err := os.WriteFile(base+".batch.json", data, 0o644); err != nil {
-			t.Fatal(err)
+		base := filepath.Join(env.out, fmt.Sprintf("child_%04d_%02d", chunk, children))
+		data, _ := json.Marshal(rest)
+		if werr := os.WriteFile(base+".batch.json", data, 0o644); werr != nil {
+			return children, deaths, blocked, werr
 		}
 		cmd := exec.Command(os.Args[0], "-test.run", "^TestVerifC11$", "-test.count=1", "-test.timeout", "1200s")
 		cmd.Env = append(os.Environ(), "VERIF_C11_CHILD="+base+".batch.json", "VERIF_C11_LOG="+base+".log")
@@ -1302,8 +1729,8 @@ func c11RunBatches(t *testing.T, env verifEnv, cases []*c11Case, batchSize int) 
 		runErr := cmd.Run()
 		os.WriteFile(base+".out", out.Bytes(), 0o644)
 		// read the log
-		lastC, lastO, lastPh, lastStatus, ended := -1, -1, "", 0, false
-		if lf, err := os.Open(base + ".log"); err == nil {
+		lastC, lastO, lastPh, lastStatus, ended, wasBlocked := -1, -1, "", 0, false, false
+		if lf, oerr := os.Open(base + ".log"); oerr == nil {
 			sc := bufio.NewScanner(lf)
 			sc.Buffer(make([]byte, 1<<20), 1<<26)
 			for sc.Scan() {
@@ -1318,8 +1745,10 @@ func c11RunBatches(t *testing.T, env verifEnv, cases []*c11Case, batchSize int) 
 					lastPh, lastStatus = "reply", l.Status
 				case "done":
 					lastPh = "done"
-					op := &batch[l.C].Ops[l.O]
-					op.Status, op.Responsive, op.Closed, op.Events, op.Done = l.Status, l.Responsive, l.Closed, l.Events, true
+					op := &rest[l.C].Ops[l.O]
+					op.Status, op.Responsive, op.Closed, op.Events, op.Events2, op.Blocked, op.Done = l.Status, l.Responsive, l.Closed, l.Events, l.Events2, l.Blocked, true
+				case "blocked":
+					wasBlocked = true
 				case "end":
 					ended = true
 				}
@@ -1327,7 +1756,12 @@ func c11RunBatches(t *testing.T, env verifEnv, cases []*c11Case, batchSize int) 
 			lf.Close()
 		}
 		if ended {
-			start = end
+			return
+		}
+		if wasBlocked && lastC >= 0 {
+			// the rest of that case's history is not executed (the judge stops at the step)
+			blocked++
+			start += lastC + 1
 			continue
 		}
 		// the child did not finish: a process exit is an observation for the request that was in flight
@@ -1337,10 +1771,10 @@ func c11RunBatches(t *testing.T, env verifEnv, cases []*c11Case, batchSize int) 
 			if len(tail) > 3000 {
 				tail = tail[len(tail)-3000:]
 			}
-			t.Fatalf("C11 harness: child %d stopped outside a request (err=%v, last case %d op %d phase %q):\n%s", children, runErr, lastC, lastO, lastPh, tail)
+			return children, deaths, blocked, fmt.Errorf("C11 harness: child %d of chunk %d stopped outside a request (err=%v, last case %d op %d phase %q):\n%s", children, chunk, runErr, lastC, lastO, lastPh, tail)
 		}
 		deaths++
-		c := batch[lastC]
+		c := rest[lastC]
 		op := &c.Ops[lastO]
 		op.Done, op.Died, op.Responsive = true, true, false
 		if lastPh == "reply" {
@@ -1353,7 +1787,47 @@ func c11RunBatches(t *testing.T, env verifEnv, cases []*c11Case, batchSize int) 
 			}
 			c.Panic = p
 		}
-		start = start + lastC + 1
+		start += lastC + 1
+	}
+	return
+}
+
+// the chunks are independent (every child has its own server, hub and event bus): three at a time
+func c11RunBatches(t *testing.T, env verifEnv, cases []*c11Case, batchSize int) (children, deaths, blocked int) {
+	type res struct {
+		children, deaths, blocked int
+		err                       error
+	}
+	var chunks [][]*c11Case
+	for start := 0; start < len(cases); start += batchSize {
+		end := start + batchSize
+		if end > len(cases) {
+			end = len(cases)
+		}
+		chunks = append(chunks, cases[start:end])
+	}
+	results := make([]res, len(chunks))
+	sem := make(chan struct{}, 3)
+	done := make(chan int)
+	for i := range chunks {
+		go func(i int) {
+			sem <- struct{}{}
+			r := &results[i]
+			r.children, r.deaths, r.blocked, r.err = c11RunChunk(env, i, chunks[i])
+			<-sem
+			done <- i
+		}(i)
+	}
+	for range chunks {
+		<-done
+	}
+	for _, r := range results {
+		if r.err != nil {
+			t.Fatal(r.err)
+		}
+		children += r.children
+		deaths += r.deaths
+		blocked += r.blocked
 	}
 	return
 }
@@ -1377,6 +1851,7 @@ func TestVerifC11(t *testing.T) {
 			c := cs[i]
 			for j := range c.Ops {
 				c.Ops[j].Done, c.Ops[j].Died, c.Ops[j].Closed, c.Ops[j].Events, c.Ops[j].Status = false, false, false, nil, 0
+				c.Ops[j].Events2, c.Ops[j].Blocked, c.Ops[j].Responsive = nil, "", false
 			}
 			// The ids of the replay file are kept: the driver re-runs failing cases to confirm
 			// them and matches the verdicts by case id (renumbering them here made every
@@ -1411,7 +1886,7 @@ func TestVerifC11(t *testing.T) {
 	for _, c := range g.cases {
 		c.Fixed = fixed
 	}
-	children, deaths := c11RunBatches(t, env, g.cases, 150)
+	children, deaths, blockedHubs := c11RunBatches(t, env, g.cases, 150)
 
 	// translator self-test: the schema of the running package is the generated one
 	var rows []string
@@ -1440,6 +1915,8 @@ func TestVerifC11(t *testing.T) {
 			switch {
 			case o.Died:
 				sink.count("obs/process-died")
+			case o.Blocked != "":
+				sink.count("obs/hub-blocked")
 			case o.Status == 0:
 				sink.count("obs/no-reply")
 			default:
@@ -1449,7 +1926,11 @@ func TestVerifC11(t *testing.T) {
 				sink.count("obs/with-events")
 				nontrivial = true
 			}
-			statuses = append(statuses, fmt.Sprintf("%d%v%v", o.Status, o.Died, o.Events))
+			if len(o.Events2) > 0 {
+				sink.count("obs/with-events-elsewhere")
+				nontrivial = true
+			}
+			statuses = append(statuses, fmt.Sprintf("%d%v%v%v%v", o.Status, o.Died, o.Events, o.Events2, o.Blocked != ""))
 		}
 		cls := c.Class
 		if i := strings.Index(cls, "/"); i >= 0 {
@@ -1470,6 +1951,7 @@ func TestVerifC11(t *testing.T) {
 	sink.stats.Histogram["shape_enumeration_cases"] = enumerated
 	sink.stats.Histogram["child_processes"] = children
 	sink.stats.Histogram["child_deaths"] = deaths
+	sink.stats.Histogram["child_hubs_blocked"] = blockedHubs
 	if fixed {
 		sink.stats.Histogram["tree_has_CheckValid"] = 1
 	} else {
